@@ -100,8 +100,9 @@ theorem negative_custom_ignored (S : Schema) (cf : Custom) (hcf : cf.InRange) (v
 
 /-! ## adding selections never decreases the complexity -/
 
-/-- Full statement wanted: `Ins a b → calculate S cf vars a ≤ calculate S cf vars b` for **all** `cf`.
-    That is false for the *definition itself* (see `nonmonotone_custom_witness`), so it is proved
+/-- Full statement wanted (`monotone_add_selection`):
+    `∀ cf, cf.InRange → Ins a b → calculate S cf vars a ≤ calculate S cf vars b`.
+    That is false for the *definition itself* (see `monotone_add_selection_witness`), so it is proved
     (1) at the top level of the operation — through any nesting of fragments — for all custom functions, and
     (2) at any depth for custom functions that are monotone in `childComplexity`. -/
 theorem monotone_add_selection_top (S : Schema) (cf : Custom) (hcf : cf.InRange) (vars : Vars) {a b : List Sel}
@@ -112,7 +113,7 @@ theorem monotone_add_selection_top (S : Schema) (cf : Custom) (hcf : cf.InRange)
 example : InsTop [Sel.spread "F" []] [Sel.spread "F" [Sel.field "Q" "x" "Int" [] []]] :=
   .inSpread "F" [] (.here _ _)
 
-theorem monotone_add_selection (S : Schema) (cf : Custom) (hcf : cf.InRange) (hm : cf.Monotone) (vars : Vars)
+theorem monotone_add_selection_partial (S : Schema) (cf : Custom) (hcf : cf.InRange) (hm : cf.Monotone) (vars : Vars)
     {a b : List Sel} (h : Ins a b) : calculate S cf vars a ≤ calculate S cf vars b := by
   rw [complexity_eq_definition S cf hcf, complexity_eq_definition S cf hcf]
   exact sat_mono (spec_mono_ins hm vars h)
@@ -128,16 +129,17 @@ example : Ins [Sel.field "Q" "me" "User" [] []] [Sel.field "Q" "me" "User" [] [S
   .inField "Q" "me" "User" [] [] (.here _ _)
 
 /-- any number of insertions -/
-theorem monotone_add_selections (S : Schema) (cf : Custom) (hcf : cf.InRange) (hm : cf.Monotone) (vars : Vars)
+theorem monotone_add_selections_partial (S : Schema) (cf : Custom) (hcf : cf.InRange) (hm : cf.Monotone) (vars : Vars)
     {a b : List Sel} (h : InsStar a b) : calculate S cf vars a ≤ calculate S cf vars b := by
   induction h with
   | refl a => omega
-  | step h1 _ ih => exact Int.le_trans (monotone_add_selection S cf hcf hm vars h1) ih
+  | step h1 _ ih => exact Int.le_trans (monotone_add_selection_partial S cf hcf hm vars h1) ih
 
 example : InsStar [] [Sel.field "Q" "a" "Int" [] [], Sel.field "Q" "b" "Int" [] []] :=
   .step (.here (Sel.field "Q" "b" "Int" [] []) []) (.step (.here _ _) (.refl _))
 
-/-! ### the hypothesis of `monotone_add_selection` is needed -/
+/-! ### the hypothesis of `monotone_add_selection_partial` is needed
+(DESIGN.md calls this witness `nonmonotone_custom_witness`) -/
 
 def witnessSchema : Schema :=
   { kind := fun n => if n = "Query" ∨ n = "Item" then .object else .other, possible := fun _ => [] }
@@ -149,7 +151,7 @@ def witnessB : List Sel := [.field "Query" "items" "Item" [] [.field "Item" "nam
 /-- With the non-monotone custom function `10 - child`, `{ items { id } }` costs 9 and
     `{ items { name id } }` costs 8: the *documented definition itself* goes down, so this is not a defect
     of the walker; the walker agrees with the definition on both. -/
-theorem nonmonotone_custom_witness :
+theorem monotone_add_selection_witness :
     Ins witnessA witnessB ∧
     calculate witnessSchema witnessCustom [] witnessA = 9 ∧ calculate witnessSchema witnessCustom [] witnessB = 8 ∧
     Spec.complexity witnessSchema witnessCustom [] witnessA = 9 ∧ Spec.complexity witnessSchema witnessCustom [] witnessB = 8 ∧
@@ -207,6 +209,8 @@ theorem over_limit_unbounded_runs_nothing (before after : List Mutator) (S : Sch
     (vars : Vars) (op : List Sel) (limit : Int) (hl : limit < maxInt) (hover : Spec.sels' S cf vars op > limit) :
     (serveWithLimit before after S cf vars op limit).execCalls = 0 :=
   (over_limit_runs_nothing before after S cf hcf vars op limit (by unfold Spec.complexity Spec.sat; rw [Int.min_def]; split <;> omega)).1
+
+example : (8 : Int) < maxInt ∧ Spec.sels' witnessSchema witnessCustom [] witnessA > 8 := by decide
 
 /-- an operation at or below the limit is not rejected for complexity: the extension returns no error and
     the server behaves exactly as without it; with no other mutator `Exec` runs (once) -/
